@@ -83,6 +83,7 @@ def __linear_2d_1o_3(state: np.ndarray, _: float,
 
     d2: float = ((s0 - params[4]) ** 2.0) + ((s1 - params[5]) ** 2.0)
     if d2 < d:
+        d = d2
         o = (s0 * params[6]) + (s1 * params[7])
 
     d2 = ((s0 - params[8]) ** 2.0) + ((s1 - params[9]) ** 2.0)
@@ -113,6 +114,7 @@ def __linear_3d_1o_3(state: np.ndarray, _: float,
     d2: float = (((s0 - params[6]) ** 2.0) + ((s1 - params[7]) ** 2.0)
                  + ((s2 - params[8]) ** 2.0))
     if d2 < d:
+        d = d2
         o = (s0 * params[9]) + (s1 * params[10]) + (s2 * params[11])
 
     d2 = (((s0 - params[12]) ** 2.0) + ((s1 - params[13]) ** 2.0)
@@ -141,10 +143,12 @@ def __linear_2d_1o_4(state: np.ndarray, _: float,
 
     d2: float = ((s0 - params[4]) ** 2.0) + ((s1 - params[5]) ** 2.0)
     if d2 < d:
+        d = d2
         o = (s0 * params[6]) + (s1 * params[7])
 
     d2 = ((s0 - params[8]) ** 2.0) + ((s1 - params[9]) ** 2.0)
     if d2 < d:
+        d = d2
         o = (s0 * params[10]) + (s1 * params[11])
 
     d2 = ((s0 - params[12]) ** 2.0) + ((s1 - params[13]) ** 2.0)
@@ -175,11 +179,13 @@ def __linear_3d_1o_4(state: np.ndarray, _: float,
     d2: float = (((s0 - params[6]) ** 2.0) + ((s1 - params[7]) ** 2.0)
                  + ((s2 - params[8]) ** 2.0))
     if d2 < d:
+        d = d2
         o = (s0 * params[9]) + (s1 * params[10]) + (s2 * params[11])
 
     d2 = (((s0 - params[12]) ** 2.0) + ((s1 - params[13]) ** 2.0)
           + ((s2 - params[14]) ** 2.0))
     if d2 < d:
+        d = d2
         o = (s0 * params[15]) + (s1 * params[16]) + (s2 * params[17])
 
     d2 = (((s0 - params[18]) ** 2.0) + ((s1 - params[19]) ** 2.0)
